@@ -17,9 +17,9 @@ func init() {
 	Registry["C18"] = checkC18
 	Descriptions["C07"] = "C07-recover (every goroutine gldap starts that can run a handler or the decode slice registers, before any such call and exactly under !disablePanicRecovery, a deferred function that calls recover() directly), " +
 		"C07-accept (a failing Accept that is not the shutting-down case has a path back to the accept loop), C07-noexit (no os.Exit / log.Fatal / runtime.Goexit / undischarged explicit panic reachable from connection or request goroutines), " +
-		"C07-contained (connection/request goroutines never cancel the server context or close the listener). Decides fencing and survival of the accept loop; does not decide that bystanders receive correct answers."
+		"C07-contained (connection/request goroutines never cancel the server context or close the listener), C07-lockbalance (every Unlock/RUnlock, explicit or deferred, finds its mutex locked on every path: unlocking an unlocked mutex is a fatal error no recover() contains). Decides fencing and survival of the accept loop; does not decide that bystanders receive correct answers."
 	Descriptions["C11"] = "Necessary structural condition for bounded Stop: C11-sites (blocking socket I/O sites on connection/request goroutines enumerated), " +
-		"C11-waker (some code that runs asynchronously to those goroutines closes or deadlines every connection's socket once shutdownCtx is cancelled, and it is started for every accepted connection before its first read), " +
+		"C11-waker-lifetime (a watcher goroutine that can be told to stop is told so only after (*conn).close has waited for the handlers), C11-waker (some code that runs asynchronously to those goroutines closes or deadlines every connection's socket once shutdownCtx is cancelled, and it is started for every accepted connection before its first read), " +
 		"C11-stop-order (listener.Close and cancel precede connWg.Wait), C11-run-nil (shutdown exits of Run return nil), C11-nolock (connection goroutines never take Server.mu, which Stop holds across Wait). The time bound itself is not decided."
 	Descriptions["C17"] = "C17-guard (every store of true to Server.listenerReady is control-dependent on net.Listen's error being nil), C17-who (the flag is written only in Run (true) / Stop (false), under Server.mu), " +
 		"C17-errors (no error return of Run before or at the listen failure follows a store of true), C17-getter (Ready returns the field under the lock). Kernel-level accept behaviour is not decided."
@@ -928,6 +928,84 @@ func checkC07(c *Ctx) {
 		}
 	}
 	R.Trivial("C07-contained", "connection/request slice has no server-level effect", c.P.Pos(m.connFn.Pos()), "only connWg.Done, logging and onCloseHandler touch the Server")
+
+	// ---- C07-lockbalance: unlocking a mutex that is not locked is a runtime FATAL error ("sync: unlock of
+	// unlocked mutex"), which no recover() can contain: it ends the whole process. Every Unlock/RUnlock in the
+	// shipped packages must find its mutex held on every path, including deferred unlocks at function exit.
+	nUnl := 0
+	var lockFns []*ssa.Function
+	lockFns = append(lockFns, c.shippedFuncs(G)...)
+	lockFns = append(lockFns, c.shippedFuncs(TD)...)
+	for _, f := range lockFns {
+		var ls map[ssa.Instruction]an.LockSet
+		sets := func() map[ssa.Instruction]an.LockSet {
+			if ls == nil {
+				ls = an.LockSets(f, nil)
+			}
+			return ls
+		}
+		for _, ci := range an.Calls(f) {
+			kind, mv := an.LockOp(ci.Common())
+			if kind != "Unlock" && kind != "RUnlock" {
+				continue
+			}
+			mp := an.MutexPath(mv)
+			heldKey := mp
+			if kind == "RUnlock" {
+				heldKey = mp + "(r)"
+			}
+			nUnl++
+			key := fname(f) + ": " + kind + " of " + mp + " finds it locked"
+			switch x := ci.(type) {
+			case *ssa.Call:
+				if sets()[x][heldKey] {
+					R.OK("C07-lockbalance", key, c.pos(x), "the mutex is held on every path reaching this "+kind)
+				} else {
+					R.Fail("C07-lockbalance", key, c.pos(x), mp+" is not held on every path reaching this "+kind+": unlocking an unlocked mutex is a fatal runtime error that recover() cannot stop; one request takes the whole server down")
+				}
+			case *ssa.Defer:
+				// between the defer and the function's exit no path may leave the mutex unlocked:
+				// an explicit Unlock of the same mutex not followed by a re-Lock before the exit
+				bad := ""
+				for _, u := range an.Calls(f) {
+					uc, isCall := u.(*ssa.Call)
+					if !isCall {
+						continue
+					}
+					k2, m2 := an.LockOp(uc.Common())
+					if k2 != kind || an.MutexPath(m2) != mp {
+						continue
+					}
+					if an.Search(an.After(x), func(in ssa.Instruction) bool { return in == ssa.Instruction(uc) }, nil) == nil {
+						continue
+					}
+					relock := func(in ssa.Instruction) bool {
+						c2, ok := in.(*ssa.Call)
+						if !ok {
+							return false
+						}
+						k3, m3 := an.LockOp(c2.Common())
+						return (k3 == "Lock" && kind == "Unlock" || k3 == "RLock" && kind == "RUnlock") && an.MutexPath(m3) == mp
+					}
+					if w := an.Search(an.After(uc), func(in ssa.Instruction) bool { _, isRD := in.(*ssa.RunDefers); return isRD }, relock); w != nil {
+						bad = c.pos(uc)
+					}
+				}
+				// and the lock must have been taken before the defer is registered
+				held := sets()[x][heldKey]
+				switch {
+				case bad != "":
+					R.Fail("C07-lockbalance", key+" (deferred)", c.pos(x), "after the explicit "+kind+" at "+bad+" a path reaches the function's exit without re-locking "+mp+": the deferred "+kind+" then unlocks an unlocked mutex, a fatal runtime error that recover() cannot stop")
+				case !held:
+					R.Fail("C07-lockbalance", key+" (deferred)", c.pos(x), mp+" is not held when its "+kind+" is deferred")
+				default:
+					R.OK("C07-lockbalance", key+" (deferred)", c.pos(x), "locked before the defer; no path from the defer to the exit leaves it unlocked")
+				}
+			}
+		}
+	}
+	R.Floor("C07-lockbalance", 10)
+	R.Extra["C07-lockbalance/unlock-sites"] = nUnl
 	R.NotDecided = append(R.NotDecided, "that bystander connections keep receiving correct responses (behavioural)", "resource exhaustion inside libraries")
 }
 
@@ -1178,6 +1256,60 @@ func checkC11(c *Ctx) {
 		R.Fail("C11-waker", key, c.pos(used[0].call), "only reads are interrupted on shutdown; a client that does not read its responses still blocks Stop in a write")
 	default:
 		R.Fail("C11-waker", key, c.pos(m.readReq), "nothing closes or deadlines a connection that is blocked in ReadPacket/Write when Stop is called: the shutdown check runs only between requests, so one idle client keeps Stop from returning")
+	}
+
+	// ---- C11-waker-lifetime: a goroutine waker that can also be told to stop (select with another channel)
+	// must stay armed until the connection's handlers have ended, i.e. until (*conn).close has returned in the
+	// teardown: a handler blocked in a write after the read loop ended still has to be interrupted by Stop.
+	seenWaker := map[*ssa.Function]bool{}
+	for _, w := range used {
+		if _, isGo := w.start.(*ssa.Go); !isGo || seenWaker[w.fn] {
+			continue
+		}
+		seenWaker[w.fn] = true
+		an.Instrs(w.fn, func(in ssa.Instruction) {
+			sel, ok := in.(*ssa.Select)
+			if !ok {
+				return
+			}
+			for _, stt := range sel.States {
+				if stt.Dir != types.RecvOnly || c.isShutdownDone(stt.Chan) {
+					continue
+				}
+				ch := an.Strip(stt.Chan)
+				key := fname(w.fn) + ": stays armed until the handlers have ended (stop channel " + an.Path(ch) + ")"
+				n := 0
+				for _, f := range shipped {
+					for _, ci := range an.Calls(f) {
+						cc := ci.Common()
+						b, isB := cc.Value.(*ssa.Builtin)
+						if !isB || b.Name() != "close" || an.Strip(cc.Args[0]) != ch {
+							continue
+						}
+						n++
+						okLate := false
+						switch x := ci.(type) {
+						case *ssa.Call:
+							okLate = f == m.teardown && an.InstrDominates(m.closeCall, x)
+						case *ssa.Defer:
+							// defers run last-in first-out: registered before the teardown's defer = runs after it
+							okLate = f == m.connFn && m.tdDefer != nil && an.InstrDominates(x, m.tdDefer)
+						}
+						R.Check(okLate, "C11-waker-lifetime", key, c.pos(ci), "the stop channel is closed only after (*conn).close, which waits for the handlers, has returned",
+							"the shutdown watcher is told to stop before (*conn).close has waited for the connection's handlers (deferred calls run last-in first-out): if the read loop ends (Unbind, EOF) while a handler is blocked writing to a client that does not read, a later Stop() no longer arms the write deadline and never returns")
+					}
+					an.Instrs(f, func(in2 ssa.Instruction) {
+						if snd, ok := in2.(*ssa.Send); ok && an.Strip(snd.Chan) == ch {
+							n++
+							R.Check(f == m.teardown && an.InstrDominates(m.closeCall, snd), "C11-waker-lifetime", key, c.pos(snd), "sent only after (*conn).close returned", "the shutdown watcher is told to stop before the connection's handlers have ended")
+						}
+					})
+				}
+				if n == 0 {
+					R.OK("C11-waker-lifetime", key, c.pos(sel), "nothing ever fires the stop channel: the watcher lives until shutdown")
+				}
+			}
+		})
 	}
 
 	// ---- C11-stop-order
